@@ -243,13 +243,17 @@ func (store *fileStore) dropIncompleteIndexLine() error {
 	if keep == size {
 		return nil
 	}
+	verifPoint("truncate<", store.headerFile, store.headerFname)
 	if err := store.headerFile.Truncate(keep); err != nil {
 		return fmt.Errorf("unable to truncate file: %s: %s", store.headerFname, err.Error())
 	}
+	verifPoint("truncate>", store.headerFile, store.headerFname)
 	if store.fileSync {
+		verifPoint("sync<", store.headerFile, store.headerFname)
 		if err := store.headerFile.Sync(); err != nil {
 			return fmt.Errorf("unable to flush file: %s: %s", store.headerFname, err.Error())
 		}
+		verifPoint("sync>", store.headerFile, store.headerFname)
 	}
 	return nil
 }
